@@ -747,7 +747,7 @@ fn small_programs() -> Vec<Vec<Op>> {
 }
 
 fn n_random(thorough: bool) -> u64 {
-    if thorough { 2_500 } else { 2_500 }
+    if thorough { 3_000 } else { 1_600 }
 }
 
 /// case `index` of the run
@@ -765,12 +765,13 @@ fn case_for(seed: u64, thorough: bool, index: u64) -> Case {
     // 2. random cases
     if index < n_random(thorough) {
         let mut rng = Prng::for_case(seed, index);
-        let threads = if thorough && rng.chance(1, 3) { 3 } else { 2 };
+        // quick: every 16th random case has three threads (one operation each)
+        let threads = if thorough && rng.chance(1, 3) || !thorough && index % 16 == 0 { 3 } else { 2 };
         let max_ops = if thorough { 3 } else { 2 };
         let mut progs = vec![];
         for _ in 0..threads {
-            // keep the number of interleavings in check: 3 threads get ≤ 2 ops
-            let cap = if threads == 3 { 2 } else { max_ops };
+            // keep the number of interleavings in check: 3 threads get ≤ 2 ops (1 in the quick tier)
+            let cap = if threads == 3 { if thorough { 2 } else { 1 } } else { max_ops };
             let n = 1 + rng.below(cap) as usize;
             let p: Vec<Op> = (0..n).map(|_| random_op(&mut rng)).collect();
             progs.push(with_drops(&p, &mut rng));
@@ -1194,11 +1195,12 @@ fn main() {
                 },
             );
             rep.notes.push(format!(
-                "cases: every pair of single operations from a {}-operation alphabet on two shared lists (one full, one with room), then {} random cases (2{} threads × ≤ {} ops, + handle drops){}; every maximal schedule of every case is executed on the real code",
+                "cases: every pair of single operations from a {}-operation alphabet on two shared lists (one full, one with room), then {} random cases (2{} threads × ≤ {} ops, + handle drops{}){}; every maximal schedule of every case is executed on the real code",
                 alphabet().len(),
                 n_random(thorough),
                 if thorough { "–3" } else { "" },
                 if thorough { 3 } else { 2 },
+                if thorough { "" } else { "; every 16th has 3 threads x 1 op" },
                 if thorough { format!(", then every pair of the {} programs of ≤ 2 operations over an {}-operation alphabet", small_programs().len(), small_alphabet().len()) } else { String::new() },
             ));
             if !model {
